@@ -13,6 +13,7 @@ CONSTANTS
   ChunkAbort = @ABORT@
   FixStopDone = @FIXA@
   FixClosed = @FIXB@
+  Cancels <- MCCancels
   Admit <- MCAdmit
 INVARIANTS NoDup ChunkBound QueueBound Contract DroppedCounted MuOK Stuck QuietAfterShutdown
 CHECK_DEADLOCK FALSE
